@@ -126,8 +126,22 @@ func readAll(data []byte, sizes []int, tailErr bool, measure bool) (obs readObs,
 	case <-done:
 	case <-time.After(20 * time.Second):
 		special = "timeout"
+		timeouts++
 	}
 	return
+}
+
+// timeouts counts watchdog verdicts. A reader that spins or blocks forever leaves its goroutine
+// behind, so after two of them the run is cut short: the cases already printed are the replay.
+var timeouts int
+var statsPath string
+
+func abortIfStuck(out *vc.Out) {
+	if timeouts >= 2 {
+		out.Count("aborted-after-timeouts")
+		out.Finish(statsPath, nil)
+		os.Exit(0)
+	}
 }
 
 func (o readObs) String() string {
@@ -316,6 +330,7 @@ func emitRT(out *vc.Out, pk []pkt, sizes []int, tailErr bool, kind string) {
 		key = keyOf(pk, sizes)
 	}
 	out.Case(c, o, key)
+	abortIfStuck(out)
 	out.Count("chunking:" + kind)
 	for _, p := range pk {
 		out.Count(fmt.Sprintf("type:0x%02x", p.ty))
@@ -500,6 +515,7 @@ func main() {
 	noGen := flag.Bool("nogen", false, "only replay the corpus files")
 	flag.Parse()
 	out := vc.NewOut()
+	statsPath = *stats
 	for _, f := range flag.Args() {
 		replayFile(out, f)
 	}
